@@ -14,6 +14,7 @@ def main():
     props = [json.loads(l) for l in open(os.path.join(VERIF, "properties.jsonl")) if l.strip()]
     checks, na = [], []
     sys.path.insert(0, "/repo/src")
+    sys.path.append(os.path.join(VERIF, ".deps"))
     for p in props:
         pid = p["id"]
         path = os.path.join(VERIF, "pbt", "props", pid.lower() + ".py")
